@@ -267,6 +267,50 @@ def s13():
     return "S13-requeue-into-wrapped-ring", src
 
 
+def s14(n):
+    """a burst of cross-thread events for one thread: n fibers of the main thread wait on one thread channel, a producer
+    thread gives n values while the main thread does not poll; every value must arrive"""
+    src = HEADER.format(mk=MSG["num"]) + """
+(def tc (ev/thread-chan %d)) (def res (ev/chan %d))
+(for i 0 %d (ev/go (fn [] (ev/give res (ev/take tc)))))
+(ev/sleep 0)
+(def fin (ev/chan 1))
+# the producer is joined before the process exits (a thread that is still posting while main tears down is S4's subject)
+(ev/go (fn [] (ev/thread (fn [tc] (for i 0 %d (ev/give tc (+ 100 i)))) tc) (ev/give fin true)))
+(ev/sleep 0)
+(ev/count tc)     # scheduling points outside epoll_wait: with one preemption the whole burst happens here, before main polls
+(def got @[])
+(repeat %d (array/push got (ev/take res)))
+(ev/take fin)
+(print "got " (show (sort got)))
+(os/exit 0)
+""" % (n + 8, n, n, n, n)
+    return "S14-burst-of-%d-to-one-thread" % n, src
+
+
+def s15():
+    """messages that carry a channel the receiver already knows, followed by a value that occurs twice (back reference)"""
+    src = HEADER.format(mk=MSG["num"]) + """
+(def req (ev/thread-chan 1)) (def rep (ev/thread-chan 1))
+(def fin (ev/chan 1))
+(ev/go (fn [] (ev/thread (fn [[req]]
+                           (for i 0 3
+                             (def m (ev/take req))
+                             (ev/give (m 0) [(m 1) (m 2) (m 3) (= (m 1) (m 3))])))
+                         [req])
+         (ev/give fin true)))
+(def out @[])
+(for i 0 3
+  (def a @[i 2 3]) (def b @{:k "v"})
+  (ev/give req [rep a b a])
+  (array/push out (ev/take rep)))
+(ev/take fin)
+(print "got " (show out))
+(os/exit 0)
+"""
+    return "S15-known-channel-then-repeated-value", src
+
+
 def parse_j(text):
     return text
 
@@ -348,6 +392,15 @@ def oracle(name, out):
         rest = [v for v in vals if v != 1]
         if rest != sorted(rest):
             return ("order", "messages 2..6 (never in flight to a stale registration) arrived as %s" % rest)
+    elif name.startswith("S14"):
+        n = int(re.search(r"of-(\d+)-", name).group(1))
+        vals = [int(x) for x in re.findall(r"\d+", got)]
+        if vals != [100 + i for i in range(n)]:
+            return ("lost-or-duplicated", "%d values given to one thread in a burst, received %s" % (n, vals))
+    elif name.startswith("S15"):
+        want = "@[" + " ".join('[@[%d 2 3] @{:k "v"} @[%d 2 3] true]' % (i, i) for i in range(3)) + "]"
+        if got != want:
+            return ("message-altered", "got %s want %s" % (got, want))
     elif name.startswith("S10"):
         if got != "@[0 1]":
             return ("lock", "got %s" % got)
@@ -511,7 +564,7 @@ def main():
         scen = []
         if chk.quick:
             scen += [s1(2, 0, "num"), s1(2, 1, "tab"), s2(1, 0), s3(1, 0), s4(), s5("reader"), s5("writer"), s6(),
-                     s7("returns"), s8(), s9(), s10(), s11("select"), s11("take"), s12(), s13()]
+                     s7("returns"), s8(), s9(), s10(), s11("select"), s11("take"), s12(), s13(), s14(40), s15()]
             plan = {"bound": 2, "max_exec": 2500}
         else:
             for k in (1, 2, 3):
@@ -519,7 +572,7 @@ def main():
                     scen.append(s1(k, cap, "num"))
             scen += [s1(2, 1, "str"), s1(2, 0, "tup"), s1(2, 1, "tab"), s2(1, 0), s2(2, 1), s3(2, 0), s3(2, 1), s4(),
                      s5("reader"), s5("writer"), s6(), s7("returns"), s7("errors"), s8(), s9(), s10(),
-                     s11("select"), s11("take"), s12(), s13()]
+                     s11("select"), s11("take"), s12(), s13(), s14(40), s14(70), s15()]
             plan = {"bound": 2, "max_exec": 40000}
         only = chk.args.only
         if only:
@@ -528,7 +581,9 @@ def main():
             if chk.out_of_time(0.9):
                 chk.cap("scenario %s not run (time budget)" % name)
                 continue
-            n, outcomes, done = explore(chk, "fast", name, src, plan["bound"], tmpdir, plan["max_exec"])
+            # the burst scenario has more than a thousand scheduling points: it is explored with at most one preemption
+            bound = plan["bound"] if not name.startswith("S14") else 1
+            n, outcomes, done = explore(chk, "fast", name, src, bound, tmpdir, plan["max_exec"])
             chk.add(states=n)
             for k in outcomes:
                 chk.outcome((name, k))
